@@ -57,7 +57,7 @@ impl CfgSpec {
                 ScannerMode::new(
                     &m.name,
                     m.pats.iter().map(|p| {
-                        let q = Pattern::new(p.re.print(syms), p.tt);
+                        let q = Pattern::new(p.re.print_top(syms), p.tt);
                         match &p.la {
                             Some((pos, l)) => q.with_lookahead(Lookahead::new(*pos, l.print(syms))),
                             None => q,
@@ -76,7 +76,7 @@ impl CfgSpec {
             "modes": self.modes.iter().map(|m| json!({
                 "name": m.name,
                 "patterns": m.pats.iter().map(|p| json!({
-                    "pattern": p.re.print(syms),
+                    "pattern": p.re.print_top(syms),
                     "token_type": p.tt,
                     "lookahead": p.la.as_ref().map(|(pos, l)| json!({"is_positive": pos, "pattern": l.print(syms)})),
                 })).collect::<Vec<_>>(),
@@ -87,7 +87,7 @@ impl CfgSpec {
 
     pub fn build(&self, syms: &[char], cached: bool) -> scnr::Result<Scanner> {
         if self.simple {
-            let pats: Vec<String> = self.modes[0].pats.iter().map(|p| p.re.print(syms)).collect();
+            let pats: Vec<String> = self.modes[0].pats.iter().map(|p| p.re.print_top(syms)).collect();
             ScannerBuilder::new().add_patterns(pats).build()
         } else {
             let b = ScannerBuilder::new().add_scanner_modes(&self.to_modes(syms));
